@@ -20,6 +20,9 @@ NPDT = {"float64": onp.float64, "float32": onp.float32, "float16": onp.float16, 
 REVERSE_DICTS = [False]      # build dict values with reversed key insertion order (same space, same vector)
 
 
+LAYOUT = ["C"]      # memory layout of the >= 2-D array leaves built next: the vector-space operations must not depend on it
+
+
 def build(sp, flat, pos=0):
     """(space tree, flat vector) -> real value; returns (value, next position)"""
     k = sp["k"]
@@ -35,7 +38,12 @@ def build(sp, flat, pos=0):
             return onp.float64(ent[0][0]), pos + n
         cplx = dt.startswith("complex")
         vals = [complex(e[0], e[1]) if cplx else float(e[0]) for e in ent]
-        return onp.array(vals, dtype=NPDT[dt]).reshape(sp["shape"]), pos + n
+        arr = onp.array(vals, dtype=NPDT[dt]).reshape(sp["shape"])
+        if arr.ndim >= 2 and LAYOUT[0] == "F":
+            arr = onp.asfortranarray(arr)                      # same entries, column-major memory
+        elif arr.ndim >= 2 and LAYOUT[0] == "T":
+            arr = onp.ascontiguousarray(arr.T).T               # a transposed view of a C-ordered buffer
+        return arr, pos + n
     items = []
     for c in sp["items"]:
         v, pos = build(c, flat, pos)
@@ -139,11 +147,15 @@ def run(case):
     sp = case["sp"]
     o = {"id": case["id"], "sp": sp, "x": case["x"], "y": case["y"], "z": case["z"], "a": case["a"], "b": case["b"], "err": ""}
     try:
+        LAYOUT[0] = ["C", "C", "F", "T"][case["id"] % 4]
         x, _ = build(sp, case["x"])
         REVERSE_DICTS[0] = case["id"] % 2 == 1      # two vectors of one space whose dicts were filled in different orders
+        LAYOUT[0] = ["C", "F", "T", "C"][case["id"] % 4]
         y, _ = build(sp, case["y"])
         REVERSE_DICTS[0] = False
+        LAYOUT[0] = ["C", "T", "C", "F"][case["id"] % 4]
         z, _ = build(sp, case["z"])
+        LAYOUT[0] = "C"
         snap = json.dumps(flatten(sp, x))
         vs = vspace(x)
         o["add"] = flatten(sp, vs.add(x, y))
